@@ -38,7 +38,9 @@ TSwitch ==
     /\ \E i \in 1..Len(rel) : ListenNew(i) /\ serving' = (IF Ev.v = "none" THEN "none" ELSE Ev.v)
     /\ l' = l + 1
 
-TFinal == Is("Final") /\ rel = <<>> /\ serving = Ev.v /\ UNCHANGED vars /\ l' = l + 1
+\* at rest, every change notification delivered: what is served is what the model serves, and a valid file on disk
+\* is the version being served (a change batch must not be lost because another reload was running)
+TFinal == Is("Final") /\ rel = <<>> /\ serving = Ev.v /\ (file \in {"v1", "v2"} => serving = file) /\ UNCHANGED vars /\ l' = l + 1
 
 TraceNext == TReset \/ TEdit \/ SRequest \/ SAcquire \/ TRead \/ SStop \/ TSwitch \/ TFinal
 TraceSpec == TraceInit /\ [][TraceNext]_tvars
